@@ -1,6 +1,7 @@
 """C20: results never depend on an object's earlier use (GRAPH over uses + ENUM)."""
 
 import itertools
+import os
 
 from . import common
 from . import tokmodel as tm
@@ -249,6 +250,100 @@ def misc(rep, tier):
             except Exception as exc:
                 rep.violation("repeat split kind=%s pattern=%s kw=%r" % (kind, p, sorted(kw.items())),
                               "raised %r" % (exc,), {"kind": "misc"})
+    # a tokenizer whose validator object was re-tuned between two runs (the validator is one of its parameters): the later
+    # run judges every frame by the validator as it is then, exactly as a fresh tokenizer built with that validator does.
+    # Frames are small hashable values that compare equal from one run to the next (ints, one-byte strings).
+    from .chk_tok import _auditok as _tok_lib
+
+    ST_ = _tok_lib()["ST"]
+
+    class _Level(util.DataValidator):
+        threshold = 1
+
+        def is_valid(self, frame):
+            return (frame if isinstance(frame, int) else frame[0]) >= self.threshold
+
+    class _ListSrc:
+        def __init__(self, frames):
+            self._f, self._i = list(frames), 0
+
+        def read(self):
+            self._i += 1
+            return self._f[self._i - 1] if self._i <= len(self._f) else None
+
+    for params in ((1, 3, 1, 0, 0, 0), (2, 4, 2, 0, 0, 0), (1, 2, 0, 0, 0, 4), (2, 3, 1, 2, 1, 2)):
+        for n in range(1, 6):
+            for levels in itertools.product((0, 1, 2), repeat=n):
+                for as_bytes in (False, True):
+                    frames = [bytes([x]) for x in levels] if as_bytes else list(levels)
+                    for t1, t2 in ((1, 2), (2, 1)):
+                        rep.add("evaluations")
+                        v = _Level()
+                        tok = ST_(v, *params)
+                        v.threshold = t1
+                        tok.tokenize(_ListSrc(frames))
+                        v.threshold = t2
+                        got = [(se[1], se[2]) for se in tok.tokenize(_ListSrc(frames))]
+                        fresh = [(se[1], se[2]) for se in ST_(v, *params).tokenize(_ListSrc(frames))]
+                        if fresh:
+                            rep.add("distinct_nontrivial")
+                        if got != fresh:
+                            rep.violation("retuned validator params=%r levels=%r bytes=%s thresholds=%d,%d" % (params, levels, as_bytes, t1, t2),
+                                          "tokenizer %r reused on levels %r after its validator's threshold went from %d to %d gives %r, "
+                                          "a fresh tokenizer with the same validator %r" % (params, levels, t1, t2, got, fresh), {"kind": "misc"})
+                            break
+    # a lazily read file source (raw / wav, large_file=True) split to its end, closed and split again: the same regions
+    import wave as _wave
+
+    d_ = common.scratch_dir()
+    for p in ("AaA", "aAAaAAAa"):
+        data = pcm(p)
+        rawp, wavp = os.path.join(d_, "reuse_%d.raw" % os.getpid()), os.path.join(d_, "reuse_%d.wav" % os.getpid())
+        with open(rawp, "wb") as fp:
+            fp.write(data)
+        with _wave.open(wavp, "wb") as fp:
+            fp.setframerate(10)
+            fp.setsampwidth(2)
+            fp.setnchannels(1)
+            fp.writeframes(data)
+        kw = dict(min_dur=0.1, max_dur=0.3, max_silence=0.1, analysis_window=0.1)
+        ref = [(r.data, r.start) for r in core.split(data, sr=10, sw=2, ch=1, **kw)]
+        for kind in ("raw_source", "wav_source", "raw_reader", "wav_reader"):
+            for first in ("whole", "one_region", "reads"):
+                rep.add("evaluations")
+                try:
+                    if kind == "raw_source":
+                        obj = auditok.io.RawAudioSource(rawp, 10, 2, 1)
+                    elif kind == "wav_source":
+                        obj = auditok.io.WaveAudioSource(wavp)
+                    elif kind == "raw_reader":
+                        obj = util.AudioReader(rawp, block_dur=0.1, sr=10, sw=2, ch=1, large_file=True)
+                    else:
+                        obj = util.AudioReader(wavp, block_dur=0.1, large_file=True)
+                    kw_ = {k: v for k, v in kw.items() if not (kind.endswith("reader") and k == "analysis_window")}
+                    outs = []
+                    for i in range(3):
+                        if i == 0 and first == "one_region":
+                            g = core.split(obj, **kw_)
+                            next(g, None)
+                            g.close()
+                        elif i == 0 and first == "reads":
+                            obj.open()
+                            while obj.read(*(() if kind.endswith("reader") else (3,))) is not None:
+                                pass
+                        else:
+                            outs.append([(r.data, r.start) for r in core.split(obj, **kw_)])
+                        obj.close()
+                    if any(o != ref for o in outs):
+                        rep.violation("file source reuse kind=%s first=%s pattern=%s" % (kind, first, p),
+                                      "%s split again after it was used (%s) and closed gives starts %r, the audio holds %r" % (
+                                          kind, first, [[x[1] for x in o] for o in outs], [x[1] for x in ref]), {"kind": "misc"})
+                    elif ref:
+                        rep.add("distinct_nontrivial")
+                except Exception as exc:
+                    rep.violation("file source reuse kind=%s first=%s pattern=%s" % (kind, first, p), "raised %r" % (exc,), {"kind": "misc"})
+        os.unlink(rawp)
+        os.unlink(wavp)
     # a recorder (with and without overlapping windows) whose first pass was abandoned after j regions:
     # every later split of the rewound recorder gives what a fresh reader over the recorded audio gives
     kws_hop = [dict(min_dur=0.2, max_dur=0.6, max_silence=0.0), dict(min_dur=0.2, max_dur=0.8, max_silence=0.2),
